@@ -59,6 +59,12 @@ func New(prop, tier string) *Result {
 }
 
 func (r *Result) add(rule, key, pos, desc, status, detail string) {
+	if len(detail) > 900 {
+		detail = detail[:900] + "…"
+	}
+	if len(key) > 400 {
+		key = key[:400] + "…"
+	}
 	r.Obls = append(r.Obls, Obligation{Rule: rule, Key: rule + "|" + key, Pos: pos, Desc: desc, Status: status, Detail: detail})
 }
 
